@@ -85,7 +85,9 @@ theorem del_unknown_topic_answered (c : Ctx) (a : Actor) (tn : TName) (hard : Bo
     subst hok
     have : c1.w.row? tn = none := by rw [hw]; exact hr
     simp only [Bool.not_true, Bool.false_eq_true, if_false, this, Option.map_none, Option.getD_none, List.filter_nil, List.isEmpty_nil, if_true]
-    exact ⟨304, by simp [hf]⟩
+    refine ⟨304, ?_⟩
+    simp only [Ctx.emit]
+    split <;> simp [hf, call_frames]
   · generalize hc : c.call "SubsForTopic" id = p at hok hw
     have hf : p.1.frames = c.frames := by rw [← hc]; exact call_frames ..
     obtain ⟨c1, ok⟩ := p
